@@ -359,29 +359,49 @@ Inductive accA (p : prog) (S : list nat) : nat -> list N -> Prop :=
 
 Definition accepts (p : prog) (w : list N) : Prop := accA p [] (start p) w.
 
-(* executable acceptor used to validate the path semantics against the real matcher:
-   depth-first search, [seen] = Alt instructions passed since the last consumed byte. *)
-Fixpoint acc_b (p : prog) (fuel : nat) (seen : list nat) (pc : nat) (w : list N) : bool :=
+(* executable acceptor used to validate the path semantics against the real matcher: simulation of the program
+   with state sets. [clos] adds everything reachable without consuming a byte (worklist, [visited] = result so far). *)
+Fixpoint clos (p : prog) (fuel : nat) (work visited : list nat) : list nat :=
   match fuel with
-  | O => false
+  | O => visited
   | S f =>
-    match get p pc with
-    | None => false
-    | Some i =>
-      match op i with
-      | IMatch => match w with [] => true | _ => false end
-      | IFail | IBad => false
-      | INop | IEmpty | ICapture => acc_b p f seen (out i) w
-      | IAlt | IAltMatch =>
-          if mem pc seen then false
-          else acc_b p f (pc :: seen) (out i) w || acc_b p f (pc :: seen) (arg i) w
-      | _ => match w with
-             | b :: w' => inst_matches i b && acc_b p f [] (out i) w'
-             | [] => false
+    match work with
+    | [] => visited
+    | pc :: w =>
+      if mem pc visited then clos p f w visited
+      else match get p pc with
+           | None => clos p f w visited
+           | Some i =>
+             match op i with
+             | IAlt | IAltMatch => clos p f (out i :: arg i :: w) (pc :: visited)
+             | INop | IEmpty | ICapture => clos p f (out i :: w) (pc :: visited)
+             | _ => clos p f w (pc :: visited)
              end
-      end
+           end
     end
   end.
 
+Definition clos_fuel (p : prog) (work : list nat) : nat := 4 * size p + length work + 4.
+
+(* the states after consuming b *)
+Fixpoint step_states (p : prog) (states : list nat) (b : N) : list nat :=
+  match states with
+  | [] => []
+  | pc :: r =>
+    match get p pc with
+    | Some i => if is_rune (op i) && inst_matches i b then out i :: step_states p r b else step_states p r b
+    | None => step_states p r b
+    end
+  end.
+
+Fixpoint run_states (p : prog) (states : list nat) (w : list N) : list nat :=
+  match w with
+  | [] => states
+  | b :: w' => let nx := step_states p states b in run_states p (clos p (clos_fuel p nx) nx []) w'
+  end.
+
+Definition is_match_pc (p : prog) (pc : nat) : bool :=
+  match get p pc with Some i => match op i with IMatch => true | _ => false end | None => false end.
+
 Definition accepts_b (p : prog) (w : list N) : bool :=
-  acc_b p ((S (length w)) * (S (size p)) * 2) [] (start p) w.
+  existsb (is_match_pc p) (run_states p (clos p (clos_fuel p [start p]) [start p] []) w).
